@@ -101,8 +101,12 @@ _INT_RE = re.compile(r"-?(0|[1-9][0-9]*)\Z")
 
 
 def exotic_number_text(payload):
-    """Spellings the statement does not settle: white space around the number (Python's converters ignore it) and non-ASCII digits."""
-    return payload != payload.strip() or any(character.isdigit() and not character.isascii() for character in payload)
+    """Spellings the statement does not settle: white space around the number (Python's converters ignore it), non-ASCII digits, a plus sign, redundant leading zeros, underscores."""
+    if payload != payload.strip() or any(character.isdigit() and not character.isascii() for character in payload):
+        return True
+    unsigned = payload[1:] if payload[:1] in "+-" else payload
+    # a plus sign, redundant leading zeros, underscores between digits: Python's converters take them, "literal" / "number" do not say
+    return payload[:1] == "+" or (len(unsigned) > 1 and unsigned[0] == "0" and unsigned[1].isdigit()) or "_" in payload
 
 
 def integer_model(decl, payload):
